@@ -77,8 +77,8 @@ func init() {
 			{Name: "l2-ticker", Fn: scnC16L2, Weight: 1},
 			{Name: "l2-stalled-loop", Fn: scnC16Stall, Weight: 1},
 		},
-		Rule: "l1: histories of arrivals separated by fake-clock sleeps with cleanup calls whose cut-offs lie strictly between arrival instants (and far past / far future), keep-alive records of waiting sessions, waiting logins superseded by a later login of the same PID, one run in twelve with 150-350 sessions and logins waiting at once (mixed, or all of one kind arriving within three seconds and older than one sweep's cut-off), arrivals 0/300/700/950 ms after the second; " +
-			"l2: the real Read loop with its real one-minute ticker, second half arriving after a gap swept over 1..59 s and 121 s..10 min of simulated time (60-120 s generated, not judged); " +
+		Rule: "l1: histories of arrivals separated by fake-clock sleeps with cleanup calls whose cut-offs lie strictly between arrival instants (and far past / far future), timeline of 40 s (one run in five: 170 s, halves up to 160 s apart), keep-alive records of waiting sessions, waiting logins superseded by a later login of the same PID, one run in twelve with 150-350 sessions and logins waiting at once (mixed, or all of one kind arriving within three seconds and older than one sweep's cut-off), arrivals 0/300/700/950 ms after the second, in a third of the runs a last sweep 2 h, 26 h or 200 h later before the probe records, a quarter of the logins-first sessions wait next to a correlated, still open session of the same PID; " +
+			"l2: the real Read loop with its real one-minute ticker, second half arriving after a gap swept over 1..59 s and 121 s..10 min of simulated time (60-120 s generated, not judged), in a third of the runs a record of the correlated session arrives at the instant of every tick and the schedule interleaves the sweep with its delivery at lock granularity; " +
 			"l2-stalled-loop: the Read goroutine is withheld for 35-85 simulated seconds (slow-thread fault) so that ticks are served late, halves 5-54 s apart must still correlate; " +
 			"non-trivial = a cleanup call (or ticker firing) happened between the two halves of a session; distinct = distinct (history hash, schedule hash)",
 		Quick: 8000, Thorough: 240000,
@@ -548,7 +548,13 @@ func scnC16L1(rc *RunCtx) {
 	extra := map[int]int{}
 	ended := map[int]bool{}
 	horizon := 40
+	if t.Choose(5, "long.gaps") == 4 {
+		// halves up to two and a half minutes apart: without a cleanup call in between they are
+		// still correlated (only the cleanup's cut-off decides what is stale)
+		horizon = 170
+	}
 	var ghosts []*Session
+	notJudged := map[int]bool{}
 	for si := 0; si < n; si++ {
 		pid := 6000 + si*11
 		s := &Session{Ses: fmt.Sprint(900 + si), PID: pid, UID: 1000 + si, Kind: "ssh"}
@@ -582,6 +588,18 @@ func scnC16L1(rc *RunCtx) {
 			ghosts = append(ghosts, g)
 			tl = append(tl, arrival{t.Choose(t1, "superseded.at"), HOp{Kind: "login", S: n + len(ghosts) - 1}})
 			rc.Sim.Count("c16.superseded_pending_login")
+		}
+		if loginFirst && crowdKind == 0 && t.Choose(4, "bound.twin") == 3 {
+			// the PID was used before by a session that is correlated and still open (its end was
+			// never seen): the new login waits next to it
+			g := &Session{Ses: fmt.Sprint(7000 + si), PID: pid, UID: 1200 + si, Kind: "ssh"}
+			g.Login = GenLogin(t, pid, 80+si)
+			g.Events = append(g.Events, k.Login(g.Ses, pid, g.UID))
+			ghosts = append(ghosts, g)
+			gi := n + len(ghosts) - 1
+			tl = append(tl, arrival{0, HOp{Kind: "login", S: gi}}, arrival{0, HOp{Kind: "event", S: gi, E: 0}})
+			notJudged[gi] = true
+			rc.Sim.Count("c16.login_waits_next_to_open_session_of_same_pid")
 		}
 		if loginFirst {
 			tl = append(tl, arrival{t1, HOp{Kind: "login", S: si}})
@@ -621,6 +639,8 @@ func scnC16L1(rc *RunCtx) {
 		// one sweep in the middle of the wait that has to discard the whole crowd
 		cls = append(cls, cl{20, 2*10 + 1})
 	}
+	lateSweep := t.Choose(3, "late.sweep") == 2
+	lateAfterH := []int{2, 26, 200}[t.Choose(3, "late.sweep.after")]
 	// build ops in time order: at each second first the arrivals, then the cleanups
 	var ops []HOp
 	if off > 0 {
@@ -646,6 +666,10 @@ func scnC16L1(rc *RunCtx) {
 		if sec > now {
 			ops = append(ops, HOp{Kind: "sleep", Ms: (sec - now) * 1000})
 			now = sec
+		}
+		if sec == horizon+1 && lateSweep {
+			// hours later: whatever still waits is swept away, a correlated session is not
+			ops = append(ops, HOp{Kind: "sleep", Ms: lateAfterH * 3600 * 1000}, HOp{Kind: "cleanup", CutMs: -60000})
 		}
 		ops = append(ops, here...)
 		for _, c := range chere {
@@ -713,6 +737,9 @@ func scnC16L1(rc *RunCtx) {
 		return
 	}
 	for si, s := range w.Sessions {
+		if notJudged[si] {
+			continue
+		}
 		cnt, probe := 0, false
 		for _, e := range rec.Events {
 			if e.AuditID == s.Ses {
@@ -787,6 +814,15 @@ func scnC16L2(rc *RunCtx) {
 		gapS = 121 + t.Choose(480, "gap.out") // 121 s..10 min: must not correlate
 	}
 	loginFirst := t.Choose(2, "loginfirst") == 1
+	// the correlated session is busy: one of its records arrives at the very instant of every
+	// cleanup tick (the sweep and the delivery of an event meet)
+	var heartbeats []int
+	if t.Choose(3, "heartbeat") == 2 {
+		for tick := 60000; tick < t0+gapS*1000+3000; tick += 60000 {
+			bs.Events = append(bs.Events, k.UserMsg("USER_START", bs.Ses, bs.PID, bs.UID, true, 0))
+			heartbeats = append(heartbeats, len(bs.Events)-1)
+		}
+	}
 	h := &History{W: w}
 	if err := w.Prepare(); err != nil {
 		rc.Abort("world: %v", err)
@@ -806,6 +842,10 @@ func scnC16L2(rc *RunCtx) {
 	}
 	probeAt := t2 + 3000
 	auditTL = append(auditTL, TLItem{AtMs: probeAt, Kind: "event", S: 0, E: 2}, TLItem{AtMs: probeAt, Kind: "event", S: 1, E: 1})
+	for i, e := range heartbeats {
+		auditTL = append(auditTL, TLItem{AtMs: 60000 * (i + 1), Kind: "event", S: 1, E: e})
+	}
+	sort.SliceStable(auditTL, func(i, j int) bool { return auditTL[i].AtMs < auditTL[j].AtMs })
 	// unrelated logins (other sshd processes whose sessions never show up) keep arriving
 	// while the halves are pending: the cleanup must not depend on the processor being idle
 	decoyEvery := []int{0, 0, 20, 45}[t.Choose(4, "decoy.every")]
@@ -822,12 +862,22 @@ func scnC16L2(rc *RunCtx) {
 	}
 	p := newPipeline(rc, 2, h, sshdTL, auditTL)
 	rc.Sim.Policy = simrt.PolicyRunToBlock // durations are judged: fair schedule, clock advances at quiescence only
+	if len(heartbeats) > 0 {
+		// interleavings at lock granularity between the sweep and the delivery (the clock still
+		// advances at quiescence only)
+		pipelinePolicy(rc)
+		rc.Sim.Count("c16.record_at_every_tick")
+	}
 	if err := p.Start(); err != nil {
 		rc.Abort("start: %v", err)
 		return
 	}
 	end := time.Duration(probeAt+4000) * time.Millisecond
 	ok := p.Run(nil, end, 500*time.Millisecond, 400000)
+	if dl := rc.Sim.Deadlocked(); len(dl) > 0 {
+		rc.Fail("C16", "deadlock", "the cleanup tick and the delivery of an audit event block each other: %v", dl)
+		return
+	}
 	rc.CaseKey(t0, gapS, loginFirst, s.Ses, pid, decoyEvery)
 	rc.R.NonTrivial = gapS >= 1
 	rc.R.Sample = map[string]any{"first_half_at_s": t0 / 1000, "gap_s": gapS, "login_first": loginFirst, "band": []string{"<60s", "<60s", "60-120s (not judged)", ">120s", ">120s"}[band], "written": len(p.Out), "unrelated_login_every_s": decoyEvery}
